@@ -379,6 +379,12 @@ def run(ctx):
             srcs = []
             for a in alts:
                 a0 = values.strip_payload(a)
+                for _ in range(4):
+                    # adaptors that leave the Ok payload alone (logging / re-wording the provider's error)
+                    if is_call(a0) and callee_name(a0[1]) in ("map_err", "inspect_err", "inspect") and a0[2]:
+                        a0 = values.strip_payload(W.expand(a0[2][0]))
+                    else:
+                        break
                 if is_call(a0) and callee_name(a0[1]) == "from_residual":
                     continue        # the `?` that leaves the function: no key on that path
                 srcs.append(a0)
